@@ -69,6 +69,10 @@ pub struct Case {
     pub heartbeat: u16,
     /// connection timeout in ms (None = no timeout)
     pub timeout_ms: Option<u16>,
+    /// 1-4: a connection timeout at the top of the type's range instead (Duration::MAX, u64::MAX
+    /// seconds, u64::MAX milliseconds, i64::MAX seconds): in effect no timeout
+    #[serde(default)]
+    pub huge_timeout: u8,
     pub script: Vec<Step>,
     /// cut every server frame into segments of this many bytes (0 = whole)
     pub chunk: u8,
@@ -294,7 +298,16 @@ pub fn exec(c: &Case) -> Outcome {
         tune_ok: None,
         server_props: None,
     };
-    let timeout = c.timeout_ms.map(|ms| Duration::from_millis(40 + ms as u64 % 200));
+    let huge = match c.huge_timeout {
+        1 => Some(Duration::MAX),
+        2 => Some(Duration::from_secs(u64::MAX)),
+        3 => Some(Duration::from_millis(u64::MAX)),
+        4 => Some(Duration::from_secs(i64::MAX as u64)),
+        _ => None,
+    };
+    // `timeout` is what the reference model sees: a timeout that cannot elapse is none
+    let timeout = if huge.is_some() { None } else { c.timeout_ms.map(|ms| Duration::from_millis(40 + ms as u64 % 200)) };
+    let opt_timeout = huge.or(timeout);
     // normalise the script: `Other` steps that coincide with dedicated steps are skipped, a
     // script that runs out is completed with silence (timeout) or EOF
     let mut script: Vec<Step> = c.script.iter().filter(|s| !matches!(s, Step::Other { idx, ch1, .. } if other_is_handshake_frame(*idx, *ch1))).cloned().collect();
@@ -321,9 +334,9 @@ pub fn exec(c: &Case) -> Outcome {
                     .connection_timeout(to)
             }
             let r = match auth {
-                AuthSel::Plain { user, pass } => Connection::insecure_open_stream(stream, opts(Auth::Plain { username: user, password: pass }, locale, vhost, info, cm, fm, hb, timeout), tuning),
-                AuthSel::External => Connection::insecure_open_stream(stream, opts(Auth::External, locale, vhost, info, cm, fm, hb, timeout), tuning),
-                AuthSel::Custom { mechanism, response } => Connection::insecure_open_stream(stream, opts(CustomSasl { mechanism, response }, locale, vhost, info, cm, fm, hb, timeout), tuning),
+                AuthSel::Plain { user, pass } => Connection::insecure_open_stream(stream, opts(Auth::Plain { username: user, password: pass }, locale, vhost, info, cm, fm, hb, opt_timeout), tuning),
+                AuthSel::External => Connection::insecure_open_stream(stream, opts(Auth::External, locale, vhost, info, cm, fm, hb, opt_timeout), tuning),
+                AuthSel::Custom { mechanism, response } => Connection::insecure_open_stream(stream, opts(CustomSasl { mechanism, response }, locale, vhost, info, cm, fm, hb, opt_timeout), tuning),
             };
             // if it opened, prove it is usable and expose the server properties
             let out = match r {
@@ -439,7 +452,7 @@ pub fn exec(c: &Case) -> Outcome {
     // the attempt has returned and the I/O thread is gone (or the connection was closed): final wire
     wire.wait_until(Duration::from_secs(3), |st| st.dropped);
     feed(&mut dec, &mut seen);
-    let ctx = |extra: &str| format!("{}\n  auth={:?} locale={:?} timeout={:?}\n  script {:?}\n  client frames {:?}", extra, c.auth, c.locale, timeout, script, seen.iter().map(client_frame_name).collect::<Vec<_>>());
+    let ctx = |extra: &str| format!("{}\n  auth={:?} locale={:?} timeout={:?}\n  script {:?}\n  client frames {:?}", extra, c.auth, c.locale, opt_timeout, script, seen.iter().map(client_frame_name).collect::<Vec<_>>());
     // result
     let got: Want = match &res {
         Ok(_) => Want::Ok,
@@ -547,6 +560,9 @@ pub fn exec(c: &Case) -> Outcome {
     if deviated_after_progress {
         o.labels.push("deviation-after-progress".into());
     }
+    if huge.is_some() {
+        o.labels.push("timeout-at-top-of-range".into());
+    }
     o
 }
 
@@ -616,9 +632,10 @@ fn strat(_t: Tier) -> BoxedStrategy<Case> {
                 script,
                 prop_oneof![1 => Just(None), 2 => any::<u16>().prop_map(Some)],
                 prop_oneof![2 => Just(0u8), 1 => 1u8..9],
+                prop_oneof![12 => Just(0u8), 1 => 1u8..=4],
             )
         })
-        .prop_map(|((auth, locale, vhost, information, channel_max, frame_max, heartbeat), script, timeout_ms, chunk)| Case {
+        .prop_map(|((auth, locale, vhost, information, channel_max, frame_max, heartbeat), script, timeout_ms, chunk, huge_timeout)| Case {
             auth,
             locale,
             vhost,
@@ -629,6 +646,7 @@ fn strat(_t: Tier) -> BoxedStrategy<Case> {
             timeout_ms,
             script,
             chunk,
+            huge_timeout,
         })
         .boxed()
 }
@@ -636,7 +654,7 @@ fn strat(_t: Tier) -> BoxedStrategy<Case> {
 pub fn parts() -> Vec<Box<dyn PartDyn>> {
     vec![Box::new(Part::<Case> {
         name: "e2e",
-        rule: "client options (PLAIN with arbitrary user/password, EXTERNAL, a custom Sasl implementation, locale, virtual host, information, tuning values, connection_timeout none / 40-240 ms) x a scripted server: the happy path Start(mechanism and locale lists incl. near-miss tokens)/Tune/OpenOk-or-Close with 0-2 deviations spliced in (heartbeats, Secure, Close, any of the 64 methods on channel 0/1, a content header, a malformed frame, EOF, an I/O error, silence), every server frame optionally cut into 1-8 byte segments; oracle: a reference model of the handshake gives the exact client frames (StartOk fields incl. capabilities/information, TuneOk per the C15 spec, Open vhost, CloseOk) and the result (Ok only after OpenOk, then usable and exposing Start's server properties; otherwise the specific error; InvalidCredentials also accepted for silence / socket errors / malformed data while waiting for the reply to StartOk); the timeout error may not come before the timeout; non-trivial = deviation after at least one correct step, or frames cut into segments; distinct by case hash",
+        rule: "client options (PLAIN with arbitrary user/password, EXTERNAL, a custom Sasl implementation, locale, virtual host, information, tuning values, connection_timeout none / 40-240 ms / one case in thirteen at the top of Duration's range) x a scripted server: the happy path Start(mechanism and locale lists incl. near-miss tokens)/Tune/OpenOk-or-Close with 0-2 deviations spliced in (heartbeats, Secure, Close, any of the 64 methods on channel 0/1, a content header, a malformed frame, EOF, an I/O error, silence), every server frame optionally cut into 1-8 byte segments; oracle: a reference model of the handshake gives the exact client frames (StartOk fields incl. capabilities/information, TuneOk per the C15 spec, Open vhost, CloseOk) and the result (Ok only after OpenOk, then usable and exposing Start's server properties; otherwise the specific error; InvalidCredentials also accepted for silence / socket errors / malformed data while waiting for the reply to StartOk); the timeout error may not come before the timeout; non-trivial = deviation after at least one correct step, or frames cut into segments; distinct by case hash",
         cases: |t| t.pick(6000, 100_000),
         threads: 16,
         strategy: strat,
